@@ -36,9 +36,13 @@ func (m *Method) Call(s *Scope, args List, depth int) Object {
 			loc := &WhopLoc{Method: m, Current: i, Args: args}
 			ws := s.NewScope()
 			ws.Let("~whopper-location~", loc)
-			(c.Wrap.(*Lambda)).Closure = ws
+			// The wrapper is shared by every caller of the method, the
+			// closure of this call must not be stored in it. A copy of
+			// the lambda carries the closure.
+			wrap := *(c.Wrap.(*Lambda))
+			wrap.Closure = ws
 
-			return c.Wrap.Call(ws, args, depth+1)
+			return wrap.Call(ws, args, depth+1)
 		}
 	}
 	if s.Has("~whopper-location~") && s.Get("~whopper-location~") != nil {
@@ -81,10 +85,12 @@ func (m *Method) BoundCall(s *Scope, depth int) Object {
 			loc := &WhopLoc{Method: m, Current: i}
 			ws := s.NewScope()
 			ws.Let("~whopper-location~", loc)
-			(c.Wrap.(*Lambda)).Closure = ws
-			if bc, _ := c.Wrap.(BoundCaller); bc != nil {
-				return bc.BoundCall(ws, depth)
-			}
+			// As in Call, a copy of the shared wrapper carries the
+			// closure of this call.
+			wrap := *(c.Wrap.(*Lambda))
+			wrap.Closure = ws
+
+			return wrap.BoundCall(ws, depth)
 		}
 	}
 	return m.BoundInnerCall(s, depth)
